@@ -3,7 +3,8 @@
 
    What is proved here: laws of the two memo tables as the code has them; termination of the
    specification function on every document (cyclic spreads included); sanity of the
-   specification function; for the memoised algorithm as modelled in Valid/OverlapOpt.v (steps
+   specification function, and its adequacy: it decides the declarative (inductive) reading of
+   FieldsInSetCanMerge / SameResponseShape; for the memoised algorithm as modelled in Valid/OverlapOpt.v (steps
    A-J with both memo tables, tied to the real rule by verdict, final memo tables and the
    sequence of memo decisions): every comparison skipped on a memo hit was started earlier
    under a flag that subsumes the query.
@@ -13,7 +14,7 @@
    [opt_conflicts]). *)
 From Coq Require Import Permutation.
 From GV Require Import Base.Prelude Valid.Overlap Valid.OverlapProps Valid.PairSet Valid.PairSetProps
-  Valid.OverlapOpt Valid.OverlapOptProps.
+  Valid.OverlapOpt Valid.OverlapOptProps Valid.OverlapAdequacy.
 
 (* PairSet: has after add; a non-exclusive entry answers the exclusive and the non-exclusive
    query, an exclusive entry only the exclusive query; the set is unordered; an addition is
@@ -77,6 +78,21 @@ Print Assumptions C14_ordered_pairset_laws.
 Theorem C14_terminates : forall s d, spec_verdict s d <> VFuel.
 Proof. exact spec_verdict_terminates. Qed.
 Print Assumptions C14_terminates.
+
+(* The executable specification function (a search with a visited set) decides the declarative
+   reading of section 5.3.2: [DocConf s d] = some selection set of the document (operation,
+   fragment, field or inline-fragment selection set, with the type it applies to), with fragments
+   expanded once per set, contains two fields with the same response name that have a finite
+   derivation [Conf] of "cannot be merged": a direct conflict (different field or arguments
+   unless the parent types are different object types or an enclosing pair already was; or
+   return types of different response shape), or a conflicting pair of the merged
+   sub-selections.  Hypotheses: field ids are unique (checked at run time by the extracted
+   entry) and the document can be typed (inside the modelled fragment). *)
+Theorem C14_spec_adequate : forall s d,
+  nodupb (doc_fids d) = true -> spec_verdict s d <> VUntyped ->
+  (spec_conflicts s d = true <-> DocConf s d).
+Proof. exact spec_adequate. Qed.
+Print Assumptions C14_spec_adequate.
 
 (* SameResponseShape on return types is symmetric and reflexive *)
 Theorem C14_shape_symmetric : forall s a b,
